@@ -44,6 +44,14 @@ def _postauth(server, loop=None):
     conn._auth_complete = True
     conn._kex_complete = True
     conn._recv_handler = conn._recv_pkthdr
+
+    class _Owner:                      # the application object: accepts every notification, refuses every request
+        def __getattr__(self, name):
+            if name.startswith('__'):
+                raise AttributeError(name)
+            return lambda *a, **k: None
+
+    conn._owner = _Owner()
     sends = []
     orig_send = conn._send
 
@@ -140,7 +148,9 @@ def conn_payload(server: bool, grp: int, ti: int, body: bytes, extinfo: bool) ->
     if out.internal:
         return False                 # undocumented exception type from a handler
     if out.closed and not isinstance(out.closed[0], DisconnectError):
-        return False
+        # a peer DISCONNECT with reason 'by application' closes cleanly (no exception)
+        if not (pkttype == 1 and out.closed[0] is None):
+            return False
     return len(out.sends) <= 4
 
 
@@ -517,10 +527,10 @@ OBLIGATIONS = [
     Ob('der_bytes', der_bytes,
        sym=dict(idi=R(0, 24)),
        shards=dict(L=[0, 1], leni=[0, 1, 2, 3, 4, 5]),
-       thorough_shards=dict(L=[0, 1, 2, 3], leni=[0, 1, 2, 4], idi=list(range(len(DER_IDS)))),
+       thorough_shards=dict(L=[0, 1, 2], leni=[0, 1, 2, 3, 4, 5], idi=list(range(len(DER_IDS)))),
        timeout=120, thorough_timeout=600,
        functions=[A.der_decode, A.der_decode_partial, A.BitString.decode, A.ObjectIdentifier.decode],
-       bounds='identifier octet from 25 representatives (all universal classes incl. constructed/high-tag forms), length octet from 6 forms, content = arbitrary bytes of length 0..1 (thorough 0..3, identifier sharded)'),
+       bounds='identifier octet from 25 representatives (all universal classes incl. constructed/high-tag forms), length octet from 6 forms, content = arbitrary bytes of length 0..1 (thorough 0..2, identifier sharded)'),
     Ob('recv_lengths', recv_lengths,
        sym=dict(pktlen=R(0, 0xffffffff), buflen=R(0, 40), macsize=R(0, 2), blocksize=R(0, 1)),
        shards=dict(blocksize=[0, 1], macsize=[0, 1, 2]),
@@ -545,10 +555,10 @@ OBLIGATIONS = [
        functions=[C.SSHConnection._recv_version, C.SSHConnection._recv_data],
        bounds='banner line count in {0,1,3,1023,1024,1025,1030} x line length in {0,1,80,8190,8191,8192,9000} x version payload length in {0,1,200,246,247,248,300} x newline present or not x role'),
     Ob('sftp_attrs_bytes', sftp_attrs_bytes, sym=dict(fi=R(0, 19)),
-       shards=dict(version=[4, 6], L=[0, 4]), thorough_shards=dict(version=[3, 4, 5, 6], L=[0, 1, 4, 8, 9, 13], fi=list(range(20))),
+       shards=dict(version=[4, 6], L=[0, 4]), thorough_shards=dict(version=[3, 4, 5, 6], L=[0, 1, 4, 8, 9], fi=list(range(20))),
        timeout=300, thorough_timeout=600,
        functions=['asyncssh.sftp.SFTPAttrs.decode'],
-       bounds='20 attribute flag words (single bits, combinations, all ones) followed by arbitrary bytes of length {0,4} (thorough up to 13, flag word sharded), versions 4/6 (thorough 3..6)'),
+       bounds='20 attribute flag words (single bits, combinations, all ones) followed by arbitrary bytes of length {0,4} (thorough up to 9, flag word sharded), versions 4/6 (thorough 3..6)'),
     Ob('rsa_blob', rsa_blob, sym=dict(e=R(-2, 6), n=R(-2, 20)), timeout=120,
        functions=[PK.decode_ssh_public_key], bounds='ssh-rsa blob, e in -2..6, n in -2..20'),
     Ob('key_line', key_line, sym=dict(e=R(-2, 6), n=R(-2, 20)), timeout=120,
